@@ -710,6 +710,9 @@ func c18Corpus() []c18Case {
 		{Kind: "plain", NB: 2, Res: []string{"x"}, Evs: c18Cat(c18Full(0, 0), one("restart", 0, 0), c18Full(1, 0), c18Full(0, 0), []c18Ev{{K: "orphan", L: 1}}, c18Full(1, 0))},
 		// session expires between the acquire transaction and the local commit
 		{Kind: "plain", NB: 2, Res: []string{"x", "z"}, Evs: c18Cat([]c18Ev{{K: "acqbegin", B: 0, R: 0}, {K: "acqtxn", B: 0, R: 0}, {K: "expire", B: 0}}, c18Full(0, 1), c18Full(1, 0), one("commit", 0, 0))},
+		// the key of a previous incarnation disappears and another broker acquires between the two
+		// transactions of the new incarnation's Acquire: the reacquire transaction must fail
+		{Kind: "plain", NB: 2, Res: []string{"x"}, Evs: c18Cat(c18Full(0, 0), one("restart", 0, 0), []c18Ev{{K: "acqbegin", B: 0, R: 0}, {K: "acqtxn", B: 0, R: 0}, {K: "orphan", L: 1}}, c18Full(1, 0), []c18Ev{{K: "reacqtxn", B: 0, R: 0}, {K: "commit", B: 0, R: 0}})},
 		// graceful shutdown, then a late acquire
 		{Kind: "partition", NB: 2, Res: []string{"orders/0", "orders/1"}, Evs: c18Cat(c18Full(0, 0), c18Full(0, 1), one("releaseall", 0, 0), c18Full(1, 0), c18Full(0, 0))},
 	}
